@@ -1205,6 +1205,9 @@ func (c *Context) quantize(d, v *Decimal, exp int32) Condition {
 			}
 		} else {
 			nc := c.WithPrecision(uint32(p))
+			// The value is rescaled to exponent 0 below, so the context's
+			// MinExponent must not make the rounding treat it as subnormal.
+			nc.MinExponent = MinExponent
 
 			// The idea here is that the resulting d.Exponent after rounding will be 0. We
 			// have a number of, say, 5 digits, but p (our precision) above is set at, say,
